@@ -349,7 +349,18 @@ class Interp(ExprMixin, WhileMixin):
                 self.event("call_arity", func=getattr(fn, "name", "lambda"), missing=name)
                 raise _Raise(self.make_exc("builtins.TypeError"), self.cur_where)
         extra = args[len(params):]
-        if a.vararg:
+        if a.vararg and any(isinstance(x, Sym) and x.op == "star" for x in extra):
+            # f(..., *xs) with xs of unknown length: *args is a fresh sequence holding the known items and those of xs
+            va = PyList([])
+            va.created_in = self.fn_key(module, fn)
+            va._loop_depth = len(self.loop_ctx)  # type: ignore[attr-defined]
+            for x in extra:
+                if isinstance(x, Sym) and x.op == "star":
+                    self.list_extend(va, self.resolve_alt(x.args[0]))
+                else:
+                    self.list_append(va, x)
+            env[a.vararg.arg] = va
+        elif a.vararg:
             env[a.vararg.arg] = PyTuple(extra)
         elif extra:
             self.event("call_arity", func=getattr(fn, "name", "lambda"), extra=len(extra))
